@@ -19,6 +19,7 @@ uint64_t __CPROVER_uninterpreted_hash(uint64_t);
 #endif
 uint64_t GQ;    /* ghost query key: arbitrary, never assigned ("for all keys q") */
 
+#ifndef VF_NO_TAGMAP
 /* ------------------------------------------------------------------ TagMap: Tag -> Tag,
  * abstract view = total function that is the identity except on finitely many keys */
 #define TM_OCC(m, i) ((m)->items[i].key != (m)->items[i].value)
@@ -74,4 +75,56 @@ static inline bool spec_tm_wf(const TagMap *m) {
     }
     return true;
 }
+#endif /* VF_NO_TAGMAP */
+#ifdef VF_WITH_SET
+
+/* ------------------------------------------------------------------ Set<uint64_t>: abstract view = a finite set */
+#define ST_OCC(m, i) ((m)->items[i].valid)
+static inline bool spec_st_member(const Set_uint64_t *m, uint64_t q) {
+    for (uint64_t i = 0; i < VF_CAPMAX; i++)
+        if (i < m->capacity && ST_OCC(m, i) && m->items[i].value == q) return true;
+    return false;
+}
+static inline uint64_t spec_st_occupied(const Set_uint64_t *m) {
+    uint64_t c = 0;
+    for (uint64_t i = 0; i < VF_CAPMAX; i++)
+        if (i < m->capacity && ST_OCC(m, i)) c++;
+    return c;
+}
+static inline bool spec_st_chain_ok(const Set_uint64_t *m, uint64_t i) {
+    uint64_t j = vf_hash(m->items[i].value) % m->capacity;
+    for (uint64_t s = 0; s < VF_CAPMAX; s++) {
+        if (j == i) return true;
+        if (!ST_OCC(m, j)) return false;
+        j++;
+        if (j == m->capacity) j = 0;
+    }
+    return false;
+}
+static inline bool spec_st_probe_stops(const Set_uint64_t *m, uint64_t k, uint64_t i) {
+    if (i >= m->capacity) return false;
+    if (ST_OCC(m, i) && m->items[i].value != k) return false;
+    uint64_t j = vf_hash(k) % m->capacity;
+    for (uint64_t s = 0; s < VF_CAPMAX; s++) {
+        if (j == i) return true;
+        if (!ST_OCC(m, j) || m->items[j].value == k) return false;
+        j++;
+        if (j == m->capacity) j = 0;
+    }
+    return false;
+}
+static inline bool spec_st_wf(const Set_uint64_t *m) {
+    if (m->capacity == 0) return m->count == 0;
+    if (m->capacity > VF_CAPMAX || m->items == NULL) return false;
+    if (m->count >= m->capacity || spec_st_occupied(m) != m->count) return false;
+    for (uint64_t i = 0; i < VF_CAPMAX; i++) {
+        if (i < m->capacity && ST_OCC(m, i)) {
+            if (!spec_st_chain_ok(m, i)) return false;
+            for (uint64_t j = 0; j < VF_CAPMAX; j++)
+                if (j < i && ST_OCC(m, j) && m->items[j].value == m->items[i].value) return false;
+        }
+    }
+    return true;
+}
+#endif /* VF_WITH_SET */
 #endif
